@@ -17,11 +17,6 @@ unsafe impl GlobalAlloc for Counting {
 }
 fn peak_during<T>(f: impl FnOnce() -> T) -> (T, usize) { let base = CUR.load(Ordering::Relaxed); PEAK.store(base, Ordering::Relaxed); let r = f(); (r, PEAK.load(Ordering::Relaxed).saturating_sub(base)) }
 
-/// a reader that hands over at most k bytes per read() call
-struct Dribble<R> { inner: R, k: usize }
-impl<R: std::io::Read> std::io::Read for Dribble<R> { fn read(&mut self, buf: &mut [u8]) -> std::io::Result<usize> { let n = buf.len().min(self.k); self.inner.read(&mut buf[..n]) } }
-impl<R: std::io::Seek> std::io::Seek for Dribble<R> { fn seek(&mut self, p: std::io::SeekFrom) -> std::io::Result<u64> { self.inner.seek(p) } }
-
 #[derive(Clone, Copy, PartialEq)]
 enum Fmt { Pth, Smx }
 fn parse_write(fmt: Fmt, b: &[u8]) -> Option<Result<(Vec<u8>, String, usize), ()>> {
@@ -33,7 +28,7 @@ fn parse_write(fmt: Fmt, b: &[u8]) -> Option<Result<(Vec<u8>, String, usize), ()
 
 fn gen_pth(rng: &mut Rng, n: usize) -> Vec<u8> {
     let mut v = b"LFSPTH".to_vec(); v.push(rng.byte()); v.push(rng.byte()); v.extend((n as i32).to_le_bytes()); v.extend((rng.next() as i32).to_le_bytes());
-    for _ in 0..n { for k in 0..10 { let w: u32 = match rng.below(6) { 0 => 0x7fc0_0000, 1 => 0xffff_ffff, 2 => 0x7f80_0000, 3 => 0, _ => rng.next() as u32 }; let _ = k; v.extend(w.to_le_bytes()); } }
+    for _ in 0..n { for k in 0..10 { let w: u32 = match rng.below(9) { 0 => 0x7fc0_0000, 1 => 0xffff_ffff, 2 => 0x7f80_0000, 3 => 0, 4 => 0x8000_0000 /* -0.0 */, 5 => *rng.pick(&[1u32, 0x8000_0001, 0x007f_ffff, 0xff80_0000, 0x7fa0_0000 /* signalling NaN */]), _ => rng.next() as u32 }; let _ = k; v.extend(w.to_le_bytes()); } }
     v
 }
 fn gen_smx(rng: &mut Rng, nobj: usize, ncp: usize, dirty: bool) -> Vec<u8> {
